@@ -150,7 +150,7 @@ theorem strunc_dec (env : Env) (hE : EnvOk env) :
       have hcut := sread_cut s _ k w (by simp) hc
       apply bad_of_err
       rcases h with h | h | h | h | h
-      · subst h; simp only [sdec]; split <;> simp_all
+      · obtain ⟨h, _⟩ := h; subst h; simp only [sdec]; split <;> simp_all
       · obtain ⟨rfl, rfl, _⟩ := h; simp only [sdec, Facts.szBool]; split <;> simp_all
       · obtain ⟨rfl, rfl⟩ := h; simp only [sdec, Facts.szFloat32]; split <;> simp_all
       · obtain ⟨rfl, rfl⟩ := h; simp only [sdec, Facts.szFloat64]; split <;> simp_all
@@ -189,7 +189,7 @@ theorem strunc_dec (env : Env) (hE : EnvOk env) :
       match f, hf with
       | f+1, hf =>
       simp only [wt] at h
-      obtain ⟨t, rfl, hl, hw⟩ := h
+      obtain ⟨t, rfl, hl, hw, hp⟩ := h
       simp only [rank] at hf
       have hf' : rankList vs < f := by omega
       simp only [enc] at hc
@@ -368,10 +368,12 @@ theorem strunc_decN (env : Env) (hE : EnvOk env) :
       · rw [sdec_enc env hE v t f s h.1 h1 hr]
         have hb := strunc_decN env hE vs t f _ _ h.2 h2 hc2
         simp only
-        obtain ⟨o, s2, hr2⟩ : ∃ o s2, sdecN (sdec f env t) vs.length (s.consume (enc v).length) = (o, s2) :=
-          ⟨_, _, rfl⟩
-        rw [hr2] at hb ⊢
-        cases o <;> simp_all [Bad]
+        split
+        · exact Or.inl rfl
+        · obtain ⟨o, s2, hr2⟩ : ∃ o s2, sdecN (sdec f env t) vs.length (s.consume (enc v).length) = (o, s2) :=
+            ⟨_, _, rfl⟩
+          rw [hr2] at hb ⊢
+          cases o <;> simp_all [Bad]
       · have hb := strunc_dec env hE v t f s k h.1 h1 hc1
         obtain ⟨o, s', hr⟩ : ∃ o s', sdec f env t s = (o, s') := ⟨_, _, rfl⟩
         rw [hr] at hb ⊢
@@ -382,9 +384,11 @@ theorem strunc_decN (env : Env) (hE : EnvOk env) :
           · simp at hb
           · have hb2 := sdecN_sticky _ (sticky_sdec env f t) vs.length s' hb
             simp only
-            obtain ⟨o2, s2, hr2⟩ : ∃ o s2, sdecN (sdec f env t) vs.length s' = (o, s2) := ⟨_, _, rfl⟩
-            rw [hr2] at hb2 ⊢
-            cases o2 <;> simp_all [Bad]
+            split
+            · exact Or.inl rfl
+            · obtain ⟨o2, s2, hr2⟩ : ∃ o s2, sdecN (sdec f env t) vs.length s' = (o, s2) := ⟨_, _, rfl⟩
+              rw [hr2] at hb2 ⊢
+              cases o2 <;> simp_all [Bad]
         | ret => simpa [Bad] using hb
         | fuel => exact Or.inl rfl
 
@@ -416,7 +420,10 @@ theorem strunc_decEntries (env : Env) (hE : EnvOk env) :
         simp only
         rcases hc2.split with ⟨_, hr2, hc3⟩ | ⟨_, hc2'⟩
         · rw [sdec_enc env hE b t f _ h.2.1 h2 hr2]
-          exact strunc_decEntries env hE kvs kt t f _ _ _ h.2.2 hd.2 hacc' h3 hc3
+          simp only
+          split
+          · exact Or.inl rfl
+          · exact strunc_decEntries env hE kvs kt t f _ _ _ h.2.2 hd.2 hacc' h3 hc3
         · have hb := strunc_dec env hE b t f _ _ h.2.1 h2 hc2'
           obtain ⟨o, s', hr3⟩ : ∃ o s', sdec f env t (s.consume (enc a).length) = (o, s') := ⟨_, _, rfl⟩
           rw [hr3] at hb ⊢
@@ -425,7 +432,10 @@ theorem strunc_decEntries (env : Env) (hE : EnvOk env) :
             simp only [Bad] at hb
             rcases hb with hb | hb
             · simp at hb
-            · exact bad_of_err _ (stick kvs.length _ s' hb)
+            · simp only
+              split
+              · exact Or.inl rfl
+              · exact bad_of_err _ (stick kvs.length _ s' hb)
           | ret => simpa [Bad] using hb
           | fuel => exact Or.inl rfl
       · have hb := strunc_dec env hE a kt f s k h.1 h1 hc1
@@ -441,7 +451,11 @@ theorem strunc_decEntries (env : Env) (hE : EnvOk env) :
             obtain ⟨o2, s'', hr4⟩ : ∃ o s'', sdec f env t s' = (o, s'') := ⟨_, _, rfl⟩
             rw [hr4] at hv ⊢
             cases o2 with
-            | val v' => exact bad_of_err _ (stick kvs.length _ s'' hv)
+            | val v' =>
+              simp only
+              split
+              · exact Or.inl rfl
+              · exact bad_of_err _ (stick kvs.length _ s'' hv)
             | ret => exact bad_of_err _ hv
             | fuel => exact Or.inl rfl
         | ret => simpa [Bad] using hb
